@@ -254,7 +254,8 @@ def correspondence(ctx):
     out = new_outcome(
         "per (writer, target, dest present/absent): real audit-hook trace == model program; for EVERY kill point k the model's "
         "crashState == observed directory (dest content, temp dir present); for EVERY call k raising OSError the model's fault trace "
-        "and faultState == observed; the variant is detected from the traces and must be THE model Job.cfg (replace, guarded, with-block); non-trivial = distinct "
+        "and faultState == observed; the variant is detected from the traces and must be THE model Job.cfg (replace, guarded, with-block); the program TRANSLATED from "
+        "util/io.py (Gen/C19Program.lean) run with no fault / call k raising (every injected errno) / a formatting failure == the real calls and outcome; non-trivial = distinct "
         "(writer, target, present, mode, k) with at least one data chunk"
     )
     variants = {}
